@@ -18,10 +18,13 @@ def qlit(x):
 
 class FT(T):
 
-  def __init__(self, fn, node, ignore_assign=(), ignore_calls=("logging.error", "logging.info")):
+  def __init__(self, fn, node, ignore_assign=(), ignore_calls=("logging.error", "logging.info"),
+               state_fields=None, ignore_asserts=False):
     super().__init__(fn, node)
     self.ignore_assign = set(ignore_assign)
     self.ignore_calls = set(ignore_calls)
+    self.state_fields = state_fields       # dict-state: state['k'] is the variable state_k
+    self.ignore_asserts = ignore_asserts
 
   # ------------------------------------------------------------------ expressions
   def truthy(self, node):
@@ -60,6 +63,13 @@ class FT(T):
     return super().expr(n)
 
   def binop(self, n):
+    if isinstance(n.op, ast.Pow) and isinstance(n.right, ast.Constant) and n.right.value == 2:
+      a, ta = self.expr(n.left)
+      if ta == VEC:
+        return ("(vv_mul %s %s)" % (a, a), VEC)
+      if ta == Q:
+        return ("(Qmult %s %s)" % (a, a), Q)
+      raise TranslationError("** 2 on %s" % ta)
     a, ta = self.expr(n.left)
     b, tb = self.expr(n.right)
     sym = {ast.Add: "add", ast.Sub: "sub", ast.Mult: "mul", ast.Div: "div"}.get(type(n.op))
@@ -114,6 +124,14 @@ class FT(T):
     args = n.args
     if f in self.fn.calls and self.fn.calls[f][0] == "":      # identity wrapper
       return self.expr(args[0])
+    if f in self.fn.calls and self.fn.calls[f][1] == "Q->Q" and len(args) == 1:   # scalar oracle
+      s, t = self.expr(args[0])
+      head = self.fn.calls[f][0]
+      if t == VEC:
+        return ("(map %s %s)" % (head, s), VEC)
+      if t == Q:
+        return ("(%s %s)" % (head, s), Q)
+      raise TranslationError("%s on %s" % (f, t))
     if isinstance(n.func, ast.Attribute) and n.func.attr == "astype":
       s, t = self.expr(n.func.value)
       if t == "bool":
@@ -169,6 +187,14 @@ class FT(T):
       return ("(%s && %s)" % (self.truthy(args[0]), self.truthy(args[1])), "bool")
     if f == "jnp.logical_or" and len(args) == 2:
       return ("(%s || %s)" % (self.truthy(args[0]), self.truthy(args[1])), "bool")
+    if (f == "jnp.where" and len(args) == 3 and isinstance(args[0], ast.Compare) and
+        len(args[0].ops) == 1 and isinstance(args[0].ops[0], ast.Eq) and
+        isinstance(args[0].comparators[0], ast.Constant) and args[0].comparators[0].value == 0 and
+        ast.unparse(args[0].left) == ast.unparse(args[2]) and isinstance(args[1], ast.Constant)):
+      v, tv = self.expr(args[2])
+      if tv == VEC:
+        # jnp.where(v == 0, c, v): element-wise zero guard
+        return ("(vwhere_eq0 %s %s)" % (v, qlit(args[1].value)), VEC)
     if f == "jnp.where" and len(args) == 3:
       c = self.truthy(args[0])
       a, ta = self.expr(args[1])
@@ -194,6 +220,13 @@ class FT(T):
   def block(self, stmts, tail):
     if stmts:
       s = stmts[0]
+      if isinstance(s, ast.Delete):
+        return self.block(stmts[1:], tail)
+      if isinstance(s, ast.Assert) and self.ignore_asserts:
+        return self.block(stmts[1:], tail)
+      if (isinstance(s, ast.Return) and self.state_fields and isinstance(s.value, ast.Name) and
+          s.value.id == "state"):
+        return "(" + ", ".join("state_%s" % k for k in self.state_fields) + ")"
       if isinstance(s, ast.Assign) and len(s.targets) == 1 and ast.unparse(s.targets[0]) in self.ignore_assign:
         return self.block(stmts[1:], tail)
       if isinstance(s, ast.Expr) and isinstance(s.value, ast.Call) and ast.unparse(s.value.func) in self.ignore_calls:
@@ -220,7 +253,20 @@ class FT(T):
     return "Definition %s %s : %s :=\n%s." % (self.fn.name, params, self.fn.ret, body)
 
 
+class _StateSubscripts(ast.NodeTransformer):
+  """state['key'] -> the plain name state_key."""
+
+  def visit_Subscript(self, n):
+    self.generic_visit(n)
+    if (isinstance(n.value, ast.Name) and n.value.id == "state" and isinstance(n.slice, ast.Constant)
+        and isinstance(n.slice.value, str)):
+      return ast.copy_location(ast.Name(id="state_" + n.slice.value, ctx=n.ctx), n)
+    return n
+
+
 def translate(source_text, fn, **kw):
   tree = ast.parse(source_text)
   node = find_def(tree, fn.qual)
+  if kw.get("state_fields"):
+    node = ast.fix_missing_locations(_StateSubscripts().visit(node))
   return FT(fn, node, **kw).translate()
